@@ -31,12 +31,6 @@ theorem levelLoop_refines_walk_of_validate {κ} (t : RawTree) (vote : Oracle κ)
     runLevelLoop t vote cells = cells.mapM (walk t vote) :=
   levelLoop_refines_walk t vote cells (wfb_of_validate hval hN hd hnode) hv
 
-/-- (non-vacuity) the example taxonomy is accepted by the validator and meets
-the side conditions -/
-theorem exTree_accepted : exTree.validate = .ok () ∧ exTree.hierarchy.Nodup ∧ DictOK exTree ∧
-    HasNode exTree :=
-  ⟨by rfl, by decide, dictOK_of_b (by decide), hasNode_of_wfb exTree_wf⟩
-
 example : runLevelLoop exTree exVote [0, 1, 5, 2] = [0, 1, 5, 2].mapM (walk exTree exVote) :=
   levelLoop_refines_walk_of_validate _ _ _ exTree_accepted.1 exTree_accepted.2.1
     exTree_accepted.2.2.1 exTree_accepted.2.2.2 (exVote_ok _)
